@@ -109,7 +109,7 @@ def ep_value(p, slot_vals) -> complex:
     return sum(c * cmath.exp(1j * math.pi * (c0 / 4 + a * ta + b * tb + g * tc)) for (c0, a, b, g, c) in terms) / 2 ** sc
 
 
-ELAB_IMPORTS = "Require Import TV.Proofs.KrausCircuit TV.Proofs.ParseElab.\n"
+ELAB_IMPORTS = "Require Import TV.Proofs.KrausCircuit TV.Proofs.ParseElab TV.Proofs.ParseOk.\n"
 
 
 def model_eval(circuits: list[stim.Circuit], tag: str, timeout=1500, elab=False):
@@ -129,7 +129,7 @@ def model_eval(circuits: list[stim.Circuit], tag: str, timeout=1500, elab=False)
             continue
         metas.append({"n": n, "slots": slots})
         cov = (f",\n                    match elab_circuit {n - 1}%nat {term} with\n"
-               f"                    | Some cs => parse_is_circuit {n - 1}%nat {term} cs && forallb (cinstr_lanes_ok {n}%nat) cs && ccircuit_ok_unit {n}%nat cs\n"
+               f"                    | Some cs => parsed_ok {n}%nat {n - 1}%nat {term} cs\n"
                f"                    | None => false end") if elab else ""
         terms.append(
             f"match build {n - 1}%nat {term} with\n"
